@@ -262,8 +262,12 @@ func (f *file) Write(p []byte) (n int, err error) {
 }
 
 func (f *file) WriteBlob(p blob.Blob) (n int, err error) {
-	n, err = f.writeBlobAt("write", p, f.offset)
-	f.offset += int64(n)
+	off := f.offset
+	if f.flag&hackpadfs.FlagAppend != 0 {
+		off = int64(f.Size())
+	}
+	n, err = f.writeBlobAt("write", p, off)
+	f.offset = off + int64(n)
 	return
 }
 
@@ -272,13 +276,13 @@ func (f *file) WriteAt(p []byte, off int64) (n int, err error) {
 }
 
 func (f *file) WriteBlobAt(p blob.Blob, off int64) (n int, err error) {
+	if f.flag&hackpadfs.FlagAppend != 0 {
+		return 0, &hackpadfs.PathError{Op: "writeat", Path: f.path, Err: errors.New("invalid use of WriteAt on file opened with O_APPEND")}
+	}
 	return f.writeBlobAt("writeat", p, off)
 }
 
 func (f *file) writeBlobAt(op string, p blob.Blob, off int64) (n int, err error) {
-	if f.flag&hackpadfs.FlagAppend != 0 {
-		off = int64(f.Size())
-	}
 	if f.Mode().IsDir() {
 		return 0, &hackpadfs.PathError{Op: op, Path: f.path, Err: hackpadfs.ErrIsDir}
 	}
